@@ -35,6 +35,18 @@
 (* without consulting the signal: a plain boolean array comes back         *)
 (* (QtyEqStep).                                                            *)
 (*                                                                         *)
+(* Error paths are part of the model (round 3): the inner call may raise   *)
+(* (rk[1] = "raise": no loop for the dtype, unit mismatch ...) and the     *)
+(* exception propagates ("InnerError"); a result whose dtype NumPy may not *)
+(* store in the out array under its default casting="same_kind" rule       *)
+(* (SameKind over bool < unsigned < signed < float < complex, Fits) makes  *)
+(* the call raise ("UFuncTypeError") with every operand untouched.         *)
+(* ErrorsAsOnArrays states that signals raise exactly where the bare       *)
+(* arrays do.  Fresh results have a new heap index: the replayer reads     *)
+(* that as a new object, a buffer shared with no operand and a meta dict   *)
+(* of its own, and writes into the result afterwards to see the operands   *)
+(* stay bit-identical.                                                     *)
+(*                                                                         *)
 (* The sample values are uninterpreted terms App(u, k, operand terms)      *)
 (* (output k of ufunc u); the replayer gives them a value by applying the  *)
 (* same ufunc to the raw arrays.  The property is stated declaratively     *)
@@ -47,6 +59,8 @@ CONSTANTS
   Ufuncs,      \* records [name, nin, nout]
   Methods,     \* subset of {"call","reduce","accumulate","reduceat","outer","at"}
   DKinds,      \* abstract dtypes the inner call may return
+  OutRK,       \* abstract dtypes the inner call may compute for a slot that has an out object
+               \* ("-": one that may be stored there, "!": one that may not, or real dtypes)
   AsDtypes,    \* dtypes requested from np.asarray / np.array ("none" = not given)
   MaxDepth,    \* number of steps
   FreeDepth,   \* steps beyond this depth are in-place operator forms only (chains)
@@ -80,14 +94,28 @@ Req(c) == CASE c \in {"IntensitySignal", "FullStokesSignal"} -> <<"f8", "f4">>
             [] c \in {"BasebandSignal", "DualPolarizationSignal"} -> <<"c16", "c8">>
             [] OTHER -> <<>>
 \* numpy.can_cast(d, t, "safe") for the two targets that occur
-SafeTo(d, t) == CASE t = "f8" -> d \in {"b1", "int", "f2", "f4", "f8"}
-                  [] t = "c16" -> d \in {"b1", "int", "f2", "f4", "f8", "c8", "c16"}
+SafeTo(d, t) == CASE t = "f8" -> d \in {"b1", "uint", "int", "f2", "f4", "f8"}
+                  [] t = "c16" -> d \in {"b1", "uint", "int", "f2", "f4", "f8", "c8", "c16"}
                   [] OTHER -> FALSE
 \* Signal.__init__: dtype kept / cast to _req_dtype[0] / refused
 Admit(c, d) == IF Req(c) = <<>> \/ InSeq(d, Req(c)) THEN d
                ELSE IF SafeTo(d, Req(c)[1]) THEN Req(c)[1]
                ELSE "refuse"
 DefaultDk(c) == IF Req(c) = <<>> THEN "f8" ELSE Req(c)[1]
+
+\* Storing a ufunc result into an out array: NumPy's default rule is
+\* casting="same_kind", i.e. numpy.can_cast(from, to, "same_kind"): along
+\* bool < unsigned < signed < float < complex only upwards or within a kind,
+\* whatever the sizes and byte orders; anything may be stored as object.
+CastRank(d) == CASE d = "b1" -> 0 [] d = "uint" -> 1 [] d = "int" -> 2
+                 [] d \in {"f2", "f4", "f8", "f16"} -> 3 [] d \in {"c8", "c16", "c32"} -> 4 [] OTHER -> 9
+Numeric(d) == CastRank(d) < 9
+SameKind(a, b) == IF b = "obj" THEN TRUE
+                  ELSE IF Numeric(a) /\ Numeric(b) THEN CastRank(a) <= CastRank(b)
+                  ELSE a = b
+\* r: what the loop computes for the slot; o: dtype of the out array ("-": not a
+\* NumPy array or unknown - dask stores anything)
+Fits(r, o) == IF r = "!" THEN FALSE ELSE IF r = "-" \/ o = "-" THEN TRUE ELSE SameKind(r, o)
 
 (***************************************************************************)
 (* Data terms and heap objects                                             *)
@@ -155,8 +183,15 @@ Refused(u, m) ==
 
 \* result of the handler when called on operand `self`:
 \*   [ni |-> TRUE]  (NotImplemented)   or   [ni |-> FALSE, err, res]
+\*   err: "InnerError" - the inner call ufunc(*arrays) raised (no loop for the dtype,
+\*        unit mismatch, ...; rk[1] = "raise" stands for that), the exception propagates;
+\*        "UFuncTypeError" - the inner call refused to store a result in an out array
+\*        (same_kind rule); nothing has been written and nothing is returned
 SigHandle(h, self, u, m, ins, outs, rk) ==
   IF Refused(u, m) THEN [ni |-> TRUE, err |-> "-", res |-> <<>>]
+  ELSE IF Len(rk) > 0 /\ rk[1] = "raise" THEN [ni |-> FALSE, err |-> "InnerError", res |-> <<>>]
+  ELSE IF Variant # "cast_unsafe" /\ \E k \in 1..Len(outs) : outs[k] # 0 /\ ~Fits(rk[k], h[outs[k]].dk)
+       THEN [ni |-> FALSE, err |-> "UFuncTypeError", res |-> <<>>]
   ELSE
     LET inT  == Unwrap(h, ins)
         nres == IF m = "call" THEN u.nout ELSE 1
@@ -240,23 +275,28 @@ LaterSubclass(h, A) ==
 FirstSignal(h, A) == SigArgs(h, A)[1]
 
 AllTrue == [wraps |-> TRUE, first |-> TRUE, values |-> TRUE, outret |-> TRUE, outmeta |-> TRUE,
-            refusal |-> TRUE, frame |-> TRUE, contract |-> TRUE, asarray |-> TRUE]
+            refusal |-> TRUE, frame |-> TRUE, contract |-> TRUE, asarray |-> TRUE, errors |-> TRUE]
 
 Judge(h, u, m, ins, outs, rk, oc) ==
   LET A == Args(ins, outs)
       D == DeclResolved(h, A)
       mustRefuse == m # "call" \/ u.name = "matmul"
       inT == Unwrap(h, ins)
-      written == IF mustRefuse THEN {} ELSE {outs[k] : k \in 1..Len(outs)} \ {0}
+      \* what the same call does on the bare arrays: raises / refuses to store / goes through
+      innerRaises == ~mustRefuse /\ Len(rk) > 0 /\ rk[1] = "raise"
+      castRefuses == ~mustRefuse /\ ~innerRaises /\ \E k \in 1..Len(outs) : outs[k] # 0 /\ ~Fits(rk[k], h[outs[k]].dk)
+      proceeds == ~mustRefuse /\ ~innerRaises /\ ~castRefuses
+      \* (an inner call that raises half-way may have written: nothing is claimed about its targets)
+      written == IF proceeds \/ innerRaises THEN {outs[k] : k \in 1..Len(outs)} \ {0} ELSE {}
       ok == oc.st = "ok"
       free == {k \in 1..Len(outs) : outs[k] = 0}
-      contractRefuses == \E k \in free : Admit(h[D].cls, rk[k]) = "refuse"
+      contractRefuses == proceeds /\ \E k \in free : Admit(h[D].cls, rk[k]) = "refuse"
   IN [AllTrue EXCEPT
       \* Reductions, accumulations, outer, at and matmul raise TypeError and change nothing
       !.refusal = IF mustRefuse THEN oc.st = "TypeError" /\ oc.heap = h ELSE oc.st # "TypeError",
       \* one result per output; results without an out object are signals of the
       \* class of D carrying the metadata of D
-      !.wraps = (~mustRefuse /\ ~contractRefuses) =>
+      !.wraps = (proceeds /\ ~contractRefuses) =>
                   /\ ok /\ Len(oc.res) = u.nout /\ oc.self = D
                   /\ \A k \in free :
                        LET r == oc.res[k] IN
@@ -282,7 +322,13 @@ Judge(h, u, m, ins, outs, rk, oc) ==
       \* operands that are not an out target are left as they were
       !.frame = \A i \in 1..Len(h) : i \notin written => oc.heap[i] = h[i],
       \* a result outside the class's dtype set is refused with ValueError, never wrapped
-      !.contract = /\ (oc.st = "ValueError") = (~mustRefuse /\ contractRefuses)
+      \* what raises on the bare arrays raises on signals: an inner error propagates, a result
+      \* that NumPy would not store in the out array (same_kind) is not stored in the signal
+      \* either - the call raises and leaves every operand as it was
+      !.errors = /\ (oc.st = "InnerError") = innerRaises
+                 /\ (oc.st = "UFuncTypeError") = castRefuses
+                 /\ castRefuses => oc.heap = h,
+      !.contract = /\ (oc.st = "ValueError") = contractRefuses
                    /\ \A i \in 1..Len(oc.heap) :
                         oc.heap[i].kind = "sig" => Admit(oc.heap[i].cls, oc.heap[i].dk) = oc.heap[i].dk]
 
@@ -328,8 +374,18 @@ UfuncStep ==
          /\ HasSig(heap, Args(ins, outs))
          /\ (Canonical /\ hist = <<>>) => UsesAllInOrder(heap, Args(ins, outs))
          /\ Len(hist) >= FreeDepth => (m = "call" /\ u.nout = 1 /\ outs = <<ins[1]>>)
-         /\ \E rk \in [1..NOuts(u, m) -> DKinds \cup {"-"}] :
-              /\ \A k \in 1..Len(outs) : (rk[k] = "-") = (outs[k] # 0 \/ m # "call" \/ u.name = "matmul")
+         /\ \E rk \in [1..NOuts(u, m) -> DKinds \cup OutRK \cup {"-", "raise"}] :
+              /\ LET live == m = "call" /\ u.name # "matmul" IN
+                   \/ \* the inner call raises
+                      /\ live /\ Len(hist) < FreeDepth /\ Len(rk) > 0
+                      /\ rk[1] = "raise" /\ \A k \in 2..Len(rk) : rk[k] = "-"
+                   \/ /\ \A k \in 1..Len(outs) :
+                           IF ~live THEN rk[k] = "-"
+                           ELSE IF outs[k] = 0 THEN rk[k] \in DKinds
+                           ELSE rk[k] \in OutRK
+                      \* case generation: a refused store does not depend on the other slots
+                      /\ (Canonical /\ \E k \in 1..Len(outs) : rk[k] = "!") =>
+                           \A k \in 1..Len(outs) : outs[k] = 0 => rk[k] = "f8"
               /\ LET oc == Outcome(heap, u, m, ins, outs, rk)
                  IN Step(UfuncRec(u, m, ins, outs, rk, oc), oc, Judge(heap, u, m, ins, outs, rk, oc))
 
@@ -397,6 +453,7 @@ Refusals == chk.refusal
 InputsUnchanged == chk.frame
 DtypeContract == chk.contract
 AsArrayIsData == chk.asarray
+ErrorsAsOnArrays == chk.errors
 \* the operational resolution loop and the declarative reading agree on every heap reached
 ResolutionAgrees ==
   hist = <<>> =>
